@@ -114,7 +114,11 @@ def make_run(cfg):
                     witness_in.flag = True
                     if pool_small:
                         attacker_done.wait()      # keep the only worker occupied while the attacker is refused
+                    if cfg.get("witness_reconnects"):
+                        p._pyroRelease()          # every call of the well-behaved client on a new connection: its handshakes mix with the hostile traffic
                     got["witness"].append(("ok", p.token("w2")))
+                    if cfg.get("witness_reconnects"):
+                        p._pyroRelease()
                     got["witness"].append(("ok", p.token("w3")))
                     p._pyroRelease()
                 except S.AbortExecution:
@@ -202,6 +206,13 @@ def make_run(cfg):
             elif outcome == "deadlock":
                 stuck = [t for t in w.sch.threads if t.role == "driver" and t.status != S.DONE]
                 V("client-starved-or-deadlock|%s|%s" % (cfg["server"], "+".join(sorted(t.name for t in stuck))), "threads %r" % w.sch.threads)
+            elif outcome == "horizon":
+                # no execution of the unchanged daemon comes near the step bound: a thread keeps passing scheduling points (socket calls)
+                # without ever coming to rest - livelock
+                fatal = True
+                busy = w.sch.cur
+                V("thread-spins-without-progress|%s|%s|livelock" % (cfg["server"], "worker" if busy is not None and busy.name.startswith("Pyro-Worker") else (busy.name if busy is not None else "?")),
+                  "the execution did not come to rest within %d scheduling steps; running thread %r" % (w.sch.n_points, busy))
             elif outcome != "quiescent":
                 raise HarnessError("C05 ended with %s" % outcome)
             for name, x in w.sch.errors:
@@ -290,6 +301,11 @@ def run(ctx):
     for lab, ending in (("garbage.interrupt", "close"), ("I.trunc@-1", "reset")) if ctx.quick else (("garbage.interrupt", "close"), ("I.trunc@-1", "reset"), ("I.raises-unserialisable", "close"), ("C.trunc@39", "reset")):
         cfgs.append({"server": "thread", "timeout": 0.0, "pool": "roomy", "stream": lab, "phase": "first" if not lab.startswith("I.") else "after-handshake", "ending": ending,
                      "order": "attacker-first", "watch": "pool", "p": 1, "r": 1, "horizon": 6000})
+    # the well-behaved client reconnects for every call: accepting it can fall into the same poll round as the hostile bytes
+    for server in ("multiplex", "thread"):
+        for lab, phase, ending in (("garbage.interrupt", "after-handshake", "close"), ("I.trunc@-1", "after-handshake", "reset")) + (() if ctx.quick else (("garbage.interrupt", "first", "close"), ("C.trunc@39", "first", "reset"), ("I.raises-unserialisable", "after-handshake", "close"))):
+            cfgs.append({"server": server, "timeout": 0.0, "pool": "roomy", "stream": lab, "phase": phase, "ending": ending, "witness_reconnects": True,
+                         "p": 1, "r": 1 if ctx.quick else 2, "horizon": 4000})
     stats = explore_parallel(ctx, task, cfgs, lambda c: c["p"], lambda c: c["r"])
     ns = len(attack_streams(ctx.quick))
     cov = coverage_from_stats(
